@@ -33,7 +33,7 @@ CLAIMS = {
          "(the floor shows that assumption to be false for nameless assets: known findings), add_asset requires an asset that is not yet in the model, add_attacker requires entry points on model "
          "assets (known finding), termination of the name-uniquification loop is not proved. Bounded: all histories of <=3 API operations against an abstract reference model, random to 12.", '4 C05, 9.2(12)'),
  'C06': ('other', "Deductive: LanguageClassesFactory._generate_assets builds, for every asset type of the language graph, a schema entry with exactly the properties id, type (default = the type name) and one numeric property per "
-         "defense step with range [0, 1] and default 1.0 iff the defense is declared Enabled (else 0.0), an allOf reference per super asset and one oneOf reference per asset; and the rejection half that lives in model.py - _validate_association returns normally iff the association is new, every member is an asset of the model, no asset repeats "
+         "defense step with range [0, 1] and default 1.0 iff the defense is declared Enabled (else 0.0), an allOf reference per super asset and one oneOf reference per asset; get_association_by_signature returns the name under which a (name, left type, right type) signature is registered (the name itself when unambiguous, else the <name>_<left>_<right> sub-entry or its flipped form; LookupError otherwise); and the rejection half that lives in model.py - _validate_association returns normally iff the association is new, every member is an asset of the model, no asset repeats "
          "inside a field and no (left, right) pair is already linked by an association of the same class (association_exists_between_assets inspects EVERY association of that class); "
          "add_association raises iff not valid and leaves the model unchanged then; 'no pair of assets is linked twice by associations of one class' and 'no asset repeats inside a field' are clauses of the representation invariant wf_model (M6, M3) that every mutator preserves. Bounded: the association schemas (_generate_associations uses nested closures: outside the verified subset), the classes generated from the schema, type / multiplicity / range rejections, which are "
          "enforced by python_jsonschema_objects (assumed third party): all languages of a 2-type family + random 3-type languages.", '4 C06'),
@@ -66,10 +66,10 @@ CLAIMS = {
  'C17': ('other', "Deductive: MalCompiler.compile returns normally only if the file has no lexer error, no parser error, no unparsed tail and no malformed include, and restores its path state on every exit "
          "- verified against an ASSUMED contract of the ANTLR runtime (errors are reported to the registered listeners; a raising listener propagates) and an assumed contract of the visitor for includes. "
          "Bounded: token-level mutants of valid sources that the grammar itself rejects (root and included files) by the floor.", '4 C17'),
- 'C18': ('other', "Deductive (small part): LanguageGraph.get_association_by_fields_and_assets, through which the securiCAD loader resolves every link (first association whose two ends match the field names and asset "
+ 'C18': ('other', "Deductive (small part): LanguageGraph.get_association_by_fields_and_assets and LanguageClassesFactory.get_association_by_signature, through which the securiCAD loader resolves every link (first association whose two ends match the field names and asset "
          "types in either orientation, sub-types accepted; LookupError iff an asset type is unknown). Bounded (the bulk): the loaders themselves use nested closures, dynamic class construction of "
          "python_jsonschema_objects and zip / json / yaml - outside the verified subset: inverse translation of native models into the 0.0.39 layout and .sCAD archives.", '4 C18'),
- 'C19': ('other', "Deductive (small part): LanguageGraph.get_association_by_fields_and_assets, through which get_model rebuilds every link read back from the database (see C18). Bounded (the bulk): "
+ 'C19': ('other', "Deductive (small part): LanguageGraph.get_association_by_fields_and_assets and LanguageClassesFactory.get_association_by_signature, through which get_model rebuilds every link read back from the database (see C18). Bounded (the bulk): "
          "ingest_model / ingest_attack_graph / get_model against a recording stand-in for the py2neo driver (external); the three-level pair loop of ingest_model was judged out of reach for the "
          "E-matching based prover (same shape as attach_attackers, which did not converge).", '4 C19'),
 }
